@@ -132,11 +132,14 @@ func (n *xNode) barrier(nonce uint64) bool {
 			if v == nonce {
 				return true
 			}
-		case <-time.After(3 * time.Second):
+		case <-time.After(15 * time.Second):
+			xShaky = true // a live connection that does not answer a ping in 15 s: too busy for a verdict
 			return false
 		}
 	}
 }
+
+var xShaky bool
 
 // release stops the goroutines of an engine peer (Disconnect closes quit; an engine that disconnected itself has
 // already done so, and a second close panics - recovered here; its own reader goroutine then stays parked in wg.Wait).
@@ -223,6 +226,8 @@ func opSyncExp() error {
 		var node *xNode
 		var eng *exppeer.Peer
 		drifted := false
+		xShaky = false
+		outAtStart := len(out)
 		consumed := 0
 		headersMsg := func(ids []int) *wire.MsgHeaders {
 			m := wire.NewMsgHeaders()
@@ -417,7 +422,7 @@ func opSyncExp() error {
 					wantMsgs = append(wantMsgs, s)
 				}
 			}
-			deadline := time.Now().Add(3 * time.Second)
+			deadline := time.Now().Add(12 * time.Second)
 			if drifted {
 				deadline = time.Now().Add(20 * time.Millisecond)
 			}
@@ -561,6 +566,10 @@ func opSyncExp() error {
 		}
 		if drifted {
 			res.Stats["drifted-behaviours"]++
+		}
+		if xShaky {
+			out = out[:outAtStart]
+			res.Stats["inconclusive-behaviours"]++
 		}
 		if node != nil {
 			_ = node.conn.Close()
